@@ -87,16 +87,13 @@ def _create_consumer(ctx, consumer_uuid, project, user, consumer_type_id):
         consumer.create()
         created_new_consumer = True
     except exception.ConsumerExists:
-        # Another thread created this consumer already, verify whether
-        # the consumer type matches
+        # Another thread created this consumer already. A consumer type that
+        # differs from the one requested is changed by update_consumers(),
+        # inside the transaction that writes the allocations, if and when the
+        # request gets that far; changing it here would let a request that is
+        # then rejected (or one below 1.38, which supplies no type) alter the
+        # consumer.
         consumer = consumer_obj.Consumer.get_by_uuid(ctx, consumer_uuid)
-        # If the types don't match, update the consumer record
-        if consumer_type_id != consumer.consumer_type_id:
-            LOG.debug("Supplied consumer type for consumer %s was "
-                      "different than existing record. Updating "
-                      "consumer record.", consumer_uuid)
-            consumer.consumer_type_id = consumer_type_id
-            consumer.update()
     return consumer, created_new_consumer
 
 
